@@ -1,6 +1,7 @@
 import GroupbyVerif.Lemmas.Factorize
 import GroupbyVerif.Lemmas.Monotonic
 import GroupbyVerif.LoopBridge.CountingSort
+import GroupbyVerif.LoopBridge.WeightCode
 
 /-!
 # C02 — Factorization is a faithful partition of the rows
@@ -506,6 +507,42 @@ theorem source_counting_sort (k : Kind) (chunks : List (List Int)) (msk : List B
       r.1 (LoopBridge.pre cnt g + (j : Int)) =
         (((positionsOf (effCodes masked chunks.flatten msk) (g : Int))[j] : Nat) : Int) :=
   LoopBridge.build_group_sorted_indexer_eq k chunks msk masked cnt ng ml kml km hrange hcnt hc0 g hg j hj
+
+/-- **the translated `_weight_code_sum` is the mixed-radix combination of the per-key codes, with the null code as soon
+as ANY key is null**: `Generated.Loops.weight_code_sum` is regenerated from `factorization.py` on every run; for the
+weights `factorize_2d` passes it returns `-1` iff some component code is `-1` (also the *last* one) and otherwise the
+injective mixed-radix value (`weightCodeSum_injective`) -/
+theorem source_weight_code_sum (k : Kind) (cs : List Int) (shape : List Nat) (hlen : cs.length = shape.length)
+    (hm : cs ≠ []) (hge : ∀ c ∈ cs, -1 ≤ c) :
+    let r := Generated.Loops.weight_code_sum k cs.length (arrOf cs 0) (LoopBridge.weightsOf shape).length
+      (arrOf (LoopBridge.weightsOf shape) 0)
+    r.2 = false ∧ r.1 = (match weightCodeSum cs shape with | none => (-1 : Int) | some v => (v : Int)) ∧
+      (r.1 = -1 ↔ ∃ c ∈ cs, c = -1) := by
+  intro r
+  have h := LoopBridge.weight_code_sum_eq k cs shape hlen hm hge
+  refine ⟨h.1, h.2, ?_⟩
+  rw [h.2]
+  obtain ⟨h1, h2⟩ := LoopBridge.weightCodeSum_char cs shape hlen hge
+  by_cases ha : cs.any (fun c => c == -1) = true
+  · rw [h1 ha]
+    simp only [true_iff]
+    simpa using ha
+  · have ha' : cs.any (fun c => c == -1) = false := by
+      cases hh : cs.any (fun c => c == -1) <;> simp_all
+    obtain ⟨v, hv, _⟩ := h2 ha'
+    rw [hv]
+    constructor
+    · intro hneg
+      have : (0 : Int) ≤ (v : Int) := Int.natCast_nonneg v
+      simp only at hneg
+      omega
+    · intro hex
+      have : cs.any (fun c => c == -1) = true := by simpa using hex
+      rw [ha'] at this; cases this
+
+/-- non-vacuity: codes (2, -1) and (2, 1) under shape (3, 4) -/
+example : (Generated.Loops.weight_code_sum .f 2 (arrOf [2, -1] 0) 2 (arrOf [4, 1] 0),
+    Generated.Loops.weight_code_sum .f 2 (arrOf [2, 1] 0) 2 (arrOf [4, 1] 0)) = ((-1, false), (9, false)) := by decide
 
 /-- non-vacuity: two chunks, a null key, sizes 1 and 2: the indexer is [2, 0, 3] -/
 example :
